@@ -110,7 +110,10 @@ class C03(L1Prop):
         for (a, b) in relevant_pairs:
             for mode in ("shared", "multi"):
                 for s in scheds2:
-                    if mode == "multi" and tier != "thorough" and (len(s) != 4 or s.count("0") != 2):
+                    probe = any("!" in x for x in s)
+                    if mode == "multi" and tier != "thorough" and not probe and (len(s) != 4 or s.count("0") != 2):
+                        continue
+                    if mode == "multi" and tier != "thorough" and probe and not (a.startswith("AV") and b.startswith(("AV", "AS"))):
                         continue
                     reqs = [KINDS[a].format(d="21"), KINDS[b].format(d="22")]
                     ops = list(PREFIX) + ["conc " + mode + " " + " || ".join(reqs) + " ## " + " ".join(s), "dump 1", "dump 5"]
